@@ -54,6 +54,7 @@ func verifHarness_C05_abort() {
 	when := verifChoice("when", 3) // 0 before Next, 1 after Next, 2 without Next
 	api := verifChoice("api", 3)
 	again := verifChoice("again", 2) == 1
+	writeFirst := verifChoice("writeFirst", 2) == 1 // the response is already committed when the abort happens
 	kd := verifChoice("others", 3) // Next() calls of the other handlers
 	code := 0
 	if api == 2 {
@@ -75,6 +76,9 @@ func verifHarness_C05_abort() {
 			}
 			if c.IsAborted() != st.aborted {
 				st.badFlag = true
+			}
+			if writeFirst {
+				c.WriteString("partial")
 			}
 			switch api {
 			case 0:
@@ -131,7 +135,7 @@ func verifHarness_C05_abort() {
 		verifAssert(entered == n, "abort after Next(): the whole chain had already run")
 	}
 	if api == 2 {
-		if when != 1 {
+		if when != 1 && !writeFirst {
 			verifAssert(rec.whCalls == 1 && rec.whStatus == code, "AbortWithStatus determines the response status")
 		} else {
 			verifAssert(rec.whCalls == 1, "one header commit")
@@ -188,7 +192,22 @@ func verifHarness_C05_longChain() {
 	for i := 0; i < n-1; i++ {
 		mws = append(mws, mk(i))
 	}
-	k := verifCatch(func() { r.GET("/x", mk(n-1), mws...) })
+	var k string
+	switch verifChoice("shape", 3) {
+	case 0:
+		k = verifCatch(func() { r.GET("/x", mk(n-1), mws...) })
+	case 1: // half of the middleware comes from a group
+		h := (n - 1) / 2
+		k = verifCatch(func() {
+			r.Group("/", func() { r.GET("/x", mk(n-1), mws[h:]...) }, mws[:h]...)
+		})
+	case 2: // a pre-built route that already carries its middleware, attached inside a group
+		h := (n - 1) / 2
+		k = verifCatch(func() {
+			rt := NewRoute("/x", mk(n-1), "GET").Use(mws[h:]...)
+			r.Group("/", func() { r.AddRoute(rt) }, mws[:h]...)
+		})
+	}
 	verifAssert(k == "", "a chain below the handler limit is accepted")
 	k = verifCatch(func() { r.ServeHTTP(verifNewWriter(), verifRequest("GET", "/x")) })
 	verifAssert(k == "", "serving a chain within the limit does not panic")
@@ -250,4 +269,71 @@ func verifHarness_C05_nextStep() {
 		verifCover("C05 aborted cursor")
 	}
 	verifCover("C05 next step")
+}
+
+// Chains at and around the documented handler limit, built through every
+// registration route: whatever registration accepts must honour Abort.
+func verifHarness_C05_limitShapes() {
+	total := 61 + verifChoice("total", 5) // middleware count 61..65 (+ main)
+	shape := verifChoice("shape", 4)
+	abortAt := verifChoice("abortAt", 2) // 0: first handler aborts, 1: nobody aborts
+	st := &verifAbortState{}
+	mainAborted := false
+	mainRan := false
+	mk := func(i int) HandlerFunc {
+		if i == 0 && abortAt == 0 {
+			return func(c *Context) {
+				st.tr.enter(1)
+				c.Abort()
+				st.aborted = true
+				st.tr.leave(1)
+			}
+		}
+		return func(c *Context) {
+			if st.aborted {
+				st.enterLate = true
+			}
+		}
+	}
+	main := func(c *Context) {
+		mainRan = true
+		mainAborted = c.IsAborted()
+		if st.aborted {
+			st.enterLate = true
+		}
+	}
+	mws := make([]HandlerFunc, total)
+	for i := range mws {
+		mws[i] = mk(i)
+	}
+	h := total / 2
+	r := New()
+	k := verifCatch(func() {
+		switch shape {
+		case 0:
+			r.GET("/x", main, mws...)
+		case 1:
+			r.Group("/", func() { r.GET("/x", main, mws[h:]...) }, mws[:h]...)
+		case 2:
+			rt := NewRoute("/x", main, "GET").Use(mws[h:]...)
+			r.Group("/", func() { r.AddRoute(rt) }, mws[:h]...)
+		case 3:
+			r.Group("/", func() {
+				r.Group("/", func() { r.Any("/x", main, mws[h+5:]...) }, mws[h:h+5]...)
+			}, mws[:h]...)
+		}
+	})
+	if k != "" {
+		verifAssert(k == "panic", "a refused chain is refused by an explicit panic")
+		verifCover("C05 chain refused at registration")
+		return
+	}
+	k = verifCatch(func() { r.ServeHTTP(verifNewWriter(), verifRequest("GET", "/x")) })
+	verifAssert(k == "", "serving an accepted chain does not panic")
+	if abortAt == 0 {
+		verifAssert(!st.enterLate && !mainRan, "abort in the first handler of an accepted chain stops every later handler")
+	} else {
+		verifAssert(mainRan && !mainAborted, "without an abort the main handler of an accepted chain runs and IsAborted() is false in it")
+	}
+	verifCover("C05 chain accepted at the limit")
 }
